@@ -15,6 +15,7 @@ import KojenVerif.Model.EngineSpec
 import KojenVerif.Model.Vpp
 import KojenVerif.Model.Uml
 import KojenVerif.Lemmas.EngineWF
+import KojenVerif.Lemmas.EngineNestedWF
 /-
   Line-protocol driver: one JSON object per input line, one JSON object per output line.
   Run with `lake env lean --run Driver/Main.lean`.  The harness pipes the same inputs to the
@@ -622,6 +623,11 @@ def handle (j : Json) : Except String Json := do
     let mut blocksOk := 0
     let mut chunks := 0
     let mut chunksOk := 0
+    let mut pgtLines := 0
+    let mut pgtOk := 0
+    let mut pgtAlt := 0
+    let mut pstBlocks := 0
+    let mut pstOk := 0
     for items0 in files do
       let items := Spec.load (globals ++ st0) items0
       for it in items do
@@ -633,6 +639,29 @@ def handle (j : Json) : Except String Json := do
           if nameKinds.contains k then
             blocks := blocks + 1
             if Engine.blockOKB (Spec.elements m k) body then blocksOk := blocksOk + 1
+        | .pst _ body =>
+          pstBlocks := pstBlocks + 1
+          if Engine.pstOKB t body then pstOk := pstOk + 1
+          -- the per-guard-transition lines as they reach the innermost level (state and event names in place)
+          for s in Table.perStateKeys t do
+            let ds := Spec.caseTags "STATENAME" "stateName" "STATE_NAME" s
+            for pi in body do
+              match pi with
+              | .pet _ pb =>
+                for e in Table.eventsOf t s do
+                  let de := Spec.caseTags "EVENTNAME" "eventName" "EVENT_NAME" e
+                  for qi in pb.map (Spec.PetItem.subst (Spec.byDict ds)) do
+                    match qi with
+                    | .pgt _ gb =>
+                      for r in Table.rowsFor t s e do
+                        for i in gb.map (Spec.BItem.subst (Spec.byDict de)) do
+                          pgtLines := pgtLines + 1
+                          if Engine.rowOKB r && Engine.pgtItemOKB (Spec.transTags r) i then pgtOk := pgtOk + 1
+                          match i with
+                          | .line l => if Engine.singleB l then pgtAlt := pgtAlt + 1
+                          | _ => pure ()
+                    | _ => pure ()
+              | _ => pure ()
         | _ => pure ()
       for k in nameKinds do
         for c in chunksFor k items do
@@ -640,7 +669,9 @@ def handle (j : Json) : Except String Json := do
           if Engine.chunkOKB (Spec.kw k ++ Engine.T "_BEGIN") (Spec.kw k ++ Engine.T "_END") c then chunksOk := chunksOk + 1
     let n (x : Nat) := Json.num (JsonNumber.fromNat x)
     pure (Json.mkObj [("user_items", n uItems), ("user_items_ok", n uOk), ("blocks", n blocks), ("blocks_ok", n blocksOk),
-                      ("chunks", n chunks), ("chunks_ok", n chunksOk)])
+                      ("chunks", n chunks), ("chunks_ok", n chunksOk),
+                      ("pgt_lines", n pgtLines), ("pgt_lines_ok", n pgtOk), ("pgt_lines_with_alternative", n pgtAlt),
+                      ("pst_blocks", n pstBlocks), ("pst_blocks_ok", n pstOk)])
   | "vpp" => do
     let rows3 (k : String) : Except String (List (List Str)) := do
       (← (← j.getObjVal? k).getArr?).toList.mapM asStrs
